@@ -608,6 +608,23 @@ func main() {
 			}
 			stats["envelopes_checked"]++
 		}
+		// batch methods that take keys: the keys travel in the reserved `ids` parameter, whatever other parameters the
+		// method declares (in the URL, or in the tunnelled body) -- C16
+		if rec.verb != "" && (row.Method == "batch_get" || row.Method == "batch_delete" || row.Method == "batch_update" || row.Method == "batch_partial_update") {
+			q := rec.rawQuery
+			if rec.override != "" {
+				q = rec.body
+			}
+			hasIds := false
+			for _, kv := range strings.Split(q, "&") {
+				if strings.HasPrefix(kv, "ids=") && len(kv) > len("ids=") {
+					hasIds = true
+				}
+			}
+			if !hasIds && rec.override == "" {
+				violation("C16/ids-not-transmitted/"+feat, fmt.Sprintf("the request of a %s carries no ids parameter: %s?%s", row.Method, rec.path, rec.rawQuery), cs)
+			}
+		}
 		var callErr error
 		if e := rets[len(rets)-1]; !e.IsNil() {
 			callErr = e.Interface().(error)
